@@ -1,3 +1,4 @@
 //! Explorers
 pub mod dataworld;
 pub mod e1;
+pub mod multiworld;
